@@ -645,7 +645,7 @@ def main(argv=None):
     if a.tier == 'thorough' and not a.only:
         # the thorough tier = every quick scenario (always run to completion) + the deeper scenarios, which are run in
         # ascending order of estimated cost until the wall-clock limit of the tier; what was skipped is reported
-        deadline = t0 + float(os.environ.get('SX_THOROUGH_WALL_S', '1500'))
+        deadline = t0 + float(os.environ.get('SX_THOROUGH_WALL_S', '600'))
         base = {s.name for s in prop.scenarios('quick')}
     first = sorted([s for s in scns if s.name in base or deadline is None], key=lambda s: -s.weight)
     extras = sorted([s for s in scns if not (s.name in base or deadline is None)], key=lambda s: s.weight)
@@ -780,7 +780,8 @@ def finish(pid, a, seed, prop, results, wall):
         outside_the_claim=getattr(prop, 'OUTSIDE', []),
         engine='sx: symbolic execution of the real mabwiser modules (imported from %s) on numpy object arrays '
                'with z3 %s; one fresh solver per query' % (os.environ.get('MABWISER_REPO', '/repo'), _z3v()),
-        exhaustive=all(r['complete'] for r in results) and not errors and not any(r.get('skipped_for_time') for r in results),
+        exhaustive=all(r['complete'] for r in results if not r['twin']) and not errors and
+        not any(r.get('skipped_for_time') or r.get('partial') for r in results),
         explanation='every path of every scenario within the stated bounds was executed symbolically; each '
                     'obligation was decided by z3 (unsat = holds for all values on that path)',
     )
